@@ -27,11 +27,12 @@ Inductive stages_trace : list stage -> list ev -> Prop :=
 
 (* ---- the machine that consumes a trace ----
    m_running: systems between their start and their end;
+   m_done: ids of the systems that have ended;
    m_b: borrow flags; m_stuck: a borrow was refused (the panic of
    AtomicRefCell) or something not held was released *)
-Record mstate := { m_running : list sys; m_b : bstate; m_stuck : bool }.
+Record mstate := { m_running : list sys; m_done : list N; m_b : bstate; m_stuck : bool }.
 
-Definition m_init : mstate := {| m_running := []; m_b := bs_init; m_stuck := false |}.
+Definition m_init : mstate := {| m_running := []; m_done := []; m_b := bs_init; m_stuck := false |}.
 
 Fixpoint remove_sys (i : N) (l : list sys) : list sys :=
   match l with
@@ -44,17 +45,36 @@ Definition m_step (m : mstate) (e : ev) : mstate :=
   match e with
   | EStart s =>
       match acquire_all (m_b m) (sys_borrows s) with
-      | Some b => {| m_running := s :: m_running m; m_b := b; m_stuck := false |}
-      | None => {| m_running := m_running m; m_b := m_b m; m_stuck := true |}
+      | Some b => {| m_running := s :: m_running m; m_done := m_done m; m_b := b; m_stuck := false |}
+      | None => {| m_running := m_running m; m_done := m_done m; m_b := m_b m; m_stuck := true |}
       end
   | EEnd s =>
       match release_all (m_b m) (sys_borrows s) with
-      | Some b => {| m_running := remove_sys (s_id s) (m_running m); m_b := b; m_stuck := false |}
-      | None => {| m_running := m_running m; m_b := m_b m; m_stuck := true |}
+      | Some b => {| m_running := remove_sys (s_id s) (m_running m); m_done := s_id s :: m_done m;
+                     m_b := b; m_stuck := false |}
+      | None => {| m_running := m_running m; m_done := m_done m; m_b := m_b m; m_stuck := true |}
       end
   end.
 
 Definition m_run (m : mstate) (t : list ev) : mstate := fold_left m_step t m.
+
+(* what must hold when event e happens in state m:
+   a starting system conflicts with no running system and all its
+   dependencies have ended; an ending system is running; the borrow flags
+   accept the step *)
+Definition step_safe (m : mstate) (e : ev) : Prop :=
+  m_stuck (m_step m e) = false /\
+  match e with
+  | EStart s => (forall s', In s' (m_running m) -> sys_conflict s s' = false) /\
+                (forall d, In d (s_deps s) -> In d (m_done m))
+  | EEnd s => In s (m_running m)
+  end.
+
+Fixpoint safe_run (m : mstate) (t : list ev) : Prop :=
+  match t with
+  | [] => True
+  | e :: t' => step_safe m e /\ safe_run (m_step m e) t'
+  end.
 
 (* ---- trace predicates used by the theorems ---- *)
 Definition starts (t : list ev) : list N :=
